@@ -1,7 +1,7 @@
 (* C04 - Snapshot digests are a canonical function of the event sequence alone.
    Statements only; proofs are `exact` lemmas of History/HistProofs.v and Balloon/BalloonProofs.v. *)
 From QV Require Import Base.Util Base.HashSig History.HistModel History.HistSpec History.HistProofs
-  Hyper.HyperModel Balloon.Balloon Balloon.BalloonProofs Properties.Instance.
+  Hyper.HyperModel Hyper.HyperBatch Hyper.HyperRefine Hyper.HyperRefineSpec Balloon.Balloon Balloon.BalloonProofs Properties.Instance.
 
 Section C04.
   Variables D E V : Type.
@@ -60,6 +60,39 @@ Section C04.
   Proof. exact (add_total D E V H nbits limit kbits vval e0 kbits_len st evs new). Qed.
 End C04.
 
+(* (6) The hyper tree AS THE GO CODE STORES IT (Hyper/HyperBatch.v: 31-slot batches, cache levels, HyperTable, shortcut
+   leaves and their push-down - the mirror of balloon/hyper/insert*.go that the correspondence run compares table by
+   table) computes that published root: from the empty tables, for every sequence of Add/AddBulk calls with
+   full-length keys (repetitions inside a call and re-insertion of existing keys included), every call succeeds and
+   returns the root of the sparse tree over the map built so far. *)
+Section C04b.
+  Variables D E V : Type.
+  Variable H : hin D E V -> D.
+  Variable limit nbits : nat.
+  Hypothesis limit4 : (limit mod 4 = 0)%nat.
+  Hypothesis nbits4 : (nbits mod 4 = 0)%nat.
+  Hypothesis limit_pos : (0 < limit)%nat.
+  Hypothesis limit_lt : (limit < nbits)%nat.
+  Notation ds := (dlist D E V H nbits).
+
+  Theorem C04_hyper_batches_compute_the_published_root calls :
+    Forall (fun kvs => kvs <> [] /\ Forall (fun kv => length (fst kv) = nbits) kvs) calls ->
+    exists st', hb_run D E V H limit nbits (hinit D V) calls = Some (fst (spec_run D E V H limit nbits [] calls), st') /\
+                Represents D E V H limit nbits st' (snd (spec_run D E V H limit nbits [] calls)).
+  Proof.
+    exact (fun Hc => hb_run_spec D E V H limit nbits limit4 nbits4 limit_pos limit_lt calls (hinit D V) []
+                       (hinit_represents D E V H limit nbits) Hc).
+  Qed.
+
+  (* one call, from any tables that represent a map *)
+  Theorem C04_hyper_insert_refines st m kvs :
+    Represents D E V H limit nbits st m -> kvs <> [] -> Forall (fun kv => length (fst kv) = nbits) kvs ->
+    exists d st', hb_insert D E V H limit nbits ds st kvs = Some (d, st') /\
+      d = yroot D E V H ds (ytree_of D E V H limit nbits ds (map_add_bulk V m kvs)) /\
+      Represents D E V H limit nbits st' (map_add_bulk V m kvs).
+  Proof. exact (hb_insert_spec D E V H limit nbits limit4 nbits4 limit_pos limit_lt st m kvs). Qed.
+End C04b.
+
 Example C04_premises_hold :
   reach D4 E4 N H4 4 2 kbits4 vid st2 evs2 /\ NoDup (map kbits4 evs2) /\ (forall e, length (kbits4 e) = 4%nat).
 Proof.
@@ -67,8 +100,27 @@ Proof.
   repeat constructor; vm_compute; intuition discriminate.
 Qed.
 
+(* the batch-level theorem at an instance: 8-bit keys, cache limit 4, two calls (a shortcut leaf pushed down by a
+   key sharing six bits, and a key written twice in one call) *)
+Definition k8 (n : N) : key := map (fun i => N.testbit n (N.of_nat i)) [7; 6; 5; 4; 3; 2; 1; 0]%nat.
+Example C04b_premises_hold :
+  (4 mod 4 = 0 /\ 8 mod 4 = 0 /\ 0 < 4 /\ 4 < 8)%nat /\
+  Forall (fun kvs : list (key * N) => kvs <> [] /\ Forall (fun kv => length (fst kv) = 8%nat) kvs)
+         [[(k8 200, 0)]; [(k8 201, 1); (k8 17, 2); (k8 17, 3)]] /\
+  match hb_run D4 E4 N H4 4 8 (hinit D4 N) [[(k8 200, 0)]; [(k8 201, 1); (k8 17, 2); (k8 17, 3)]] with
+  | Some (dsl, _) => dsl = fst (spec_run D4 E4 N H4 4 8 [] [[(k8 200, 0)]; [(k8 201, 1); (k8 17, 2); (k8 17, 3)]])
+  | None => False
+  end.
+Proof.
+  split; [repeat split; try reflexivity; lia|]. split.
+  - repeat constructor; try discriminate.
+  - vm_compute. reflexivity.
+Qed.
+
 Print Assumptions C04_snapshots_canonical.
 Print Assumptions C04_history_digest_stable.
 Print Assumptions C04_grouping_independent.
 Print Assumptions C04_insert_computes_root.
 Print Assumptions C04_add_total.
+Print Assumptions C04_hyper_batches_compute_the_published_root.
+Print Assumptions C04_hyper_insert_refines.
